@@ -36,7 +36,7 @@ PROPS = {
         design_ref="DESIGN.md section 4, C01",
     ),
     "C02": S(
-        [o.opc1_cache_normalisation, o.exi2_consumers, o.alias1, o.int_intervals, o.opc5_version_coverage, o.opc6_exit_templates, o.opc8_jump_arithmetic, o.opc10_handler_queue_order, o.opc12_block_walk_table, o.opc13_exception_path_exit, o.opc14_async_position_310, o.opc15_exit_sites, o.exi1_producers, layout.blk1] + [version.ver1_opcodes, version.ver2_dispatch, fmt.mode4, fmt.cont7],
+        [o.opc1_cache_normalisation, o.exi2_consumers, o.alias1, o.int_intervals, o.opc5_version_coverage, o.opc6_exit_templates, o.opc8_jump_arithmetic, o.opc10_handler_queue_order, o.opc12_block_walk_table, o.opc13_exception_path_exit, o.opc14_async_position_310, o.opc15_exit_sites, o.opc16_exit_sites_310, o.exi1_producers, layout.blk1] + [version.ver1_opcodes, version.ver2_dispatch, fmt.mode4, fmt.cont7],
         explanation="Clauses specific to frames running on the calling thread: a forward must-dataflow over the CFG of currently_exiting_context tracks whether `offs` has skipped inline CACHE units "
                     "on every path to each identity test against an opcode that carries cache entries in some reachable interpreter (SEND on 3.12, CALL on 3.11/3.12, PRECALL on 3.11) -- "
                     "a running frame's f_lasti may rest on such an entry; every consumer addresses the exiting context as [-1] and recovers obj from the first argument of the next inner frame; "
@@ -189,7 +189,7 @@ PROPS = {
         design_ref="DESIGN.md section 4, C04",
     ),
     "C09": S(
-        slices.C09 + [e.ctx5, e.cont1_2, e.opt1, o.alias1, o.exi1_producers, o.exi2_consumers, o.opc5_version_coverage, o.opc6_exit_templates, o.opc12_block_walk_table, o.opc13_exception_path_exit, o.opc14_async_position_310, o.opc15_exit_sites, safety.esc1] + version.API,
+        slices.C09 + [e.ctx5, e.cont1_2, e.opt1, o.alias1, o.exi1_producers, o.exi2_consumers, o.opc5_version_coverage, o.opc6_exit_templates, o.opc12_block_walk_table, o.opc13_exception_path_exit, o.opc14_async_position_310, o.opc15_exit_sites, o.opc16_exit_sites_310, safety.esc1] + version.API,
         explanation="inner_stack is assigned from extract_child(<manager's generator>, for_task=False) only under `not context.is_exiting` in both sibling registrations; the four-way classification of elaborate_exit_stack assigns method names in sync/async pairs that are real methods of ExitStack/AsyncExitStack "
                     "on every supported interpreter, and every private contextlib name it reads (_exit_callbacks, element order (is_sync, callback), wrapper name _exit_wrapper, free variables args/kwds, __wrapped__, MethodType exit wrappers, _GeneratorContextManagerBase attributes) "
                     "agrees with contextlib.py of CPython 3.9-3.12; the child's is_async is the negation of is_sync; children are unfolded with fill_context, appended in deque (registration) order and assigned once.",
